@@ -57,7 +57,9 @@ def cases(tier, seed):
         kn = storeops.gen_knobs(rng, backends=("fs", "fs+cache"))
         pop = storeops.gen_ops(rng, rng.randrange(4, 25), kn, "c07")
         pop = [o for o in pop if o[0] != "restart"]
-        case = {"seed": s, "mode": "read-only", "knobs": kn, "via_config": rng.random() < 0.5, "populate": pop,
+        how = rng.choice(["argument", "config", "argument-over-config", "toggle"])
+        case = {"seed": s, "mode": "read-only", "knobs": kn, "via_config": how == "config", "ro_how": how,
+                "ro_roundtrip": rng.random() < 0.3, "populate": pop,
                 "ops": gen_ro_ops(rng, rng.randrange(3, 30), kn)}
         if rng.random() < 0.35:
             # the store being opened read-only was damaged earlier: some writes of the populate phase hit reported I/O errors
@@ -91,10 +93,12 @@ def _exec_ro(case):
             return
         W.read_only = True
         W.ro_via_config = case["via_config"]
+        W.ro_how = case.get("ro_how")
+        W.ro_roundtrip = case.get("ro_roundtrip", False)
         W.be = W.make_backend()
         world.make_env(root, None, clusters={"c5": W.be})
         if not W.be.read_only:
-            emit({"viol": [["read-only-flag-not-honoured", {"via": "config" if case["via_config"] else "argument"}, {}]], "stats": {}, "log": log})
+            emit({"viol": [["read-only-flag-not-honoured", {"via": case.get("ro_how") or ("config" if case["via_config"] else "argument"), "roundtrip": bool(case.get("ro_roundtrip"))}, {}]], "stats": {}, "log": log})
             return
         before = simfs.snapshot_tree(root)
         simfs.arm(W.roots(), intolerant=True)
